@@ -10,7 +10,7 @@ other in ONE global scope and ONE state. Result:
 with outcome = `OK <canonical value> | ERR <type-hex> | ERRPLAIN | NOPARSE | V ERR <type-hex>`.
 A section that leaves the model makes the whole case `UNSUP …` (not compared), fuel exhausted `HANG`.
 `nt=1`: the trace has at least one entry.  After the run the driver checks that every function scope
-of the final state has the shape `Ecal.Obj.frameOk` proves for `callFrame` (cross-check of the
+of the final state has the shape proved for `Ecal.Ev.buildFrame` (cross-check of the
 factored-out frame construction against what the evaluator really did): a failure prints
 `MODEL-FRAME-MISMATCH`, which no Go result equals.
 -/
